@@ -33,6 +33,16 @@ SPEC = {
             'all A|B, A-B, ~A, ~~A over an 85-class basis, range pairs in all 13 Allen relations x gaps across bracket '
             'metacharacters, random chains; result scanned over all of Unicode vs interval algebra on the operand models, '
             'under several PYTHONHASHSEEDs and injected set-iteration orders', 1000),
+    'C11': ('rv.api', 'matching methods return exactly what re finds, compiled or not',
+            'generated patterns (every mixture of named/unnamed/nested/optional/empty-capable groups, empty-width, multi-line) '
+            'x generated texts x histories over compile()/get_compiled_pattern(True|False)/purge()/partial iteration/aliasing; '
+            'every return value compared with a fresh re.compile(str(p), M|S); distinct = distinct (pattern, history)', 500),
+    'C12': ('rv.api', 'capture extraction is consistent with the source and group identity',
+            'as C11, all capture methods x include_empty x relative_to_match, plus slice laws on the returned positions', 300),
+    'C13': ('rv.api', 'splitting and replacing reconstruct the source exactly',
+            'as C11; split_by_capture only on patterns whose captures are sequential siblings; reconstruction laws', 300),
+    'C14': ('rv.api', 'file sources and context windows refer to the text, not the path',
+            'every is_path method on text vs temp file (audit hook on open), windows over {0,1,2,5,len,len+3}^2, invalid sizes', 100),
 }
 
 TIERS = {
